@@ -73,31 +73,39 @@ def main(tier):
         seen_out = {}
         viol = 0
         prints = 0
-        for i in history:
+        # natural and reversed order: every configuration of each entry; then single (entry, configuration)
+        # prints in random order, so that no entry is always printed an even number of times in a row
+        steps = [(i, None) for i in history[:2 * n]] + [(i, r.randrange(len(CP.CFGS))) for i in history[2 * n:]]
+        for i, only in steps:
             v = objs[i]
             before = snap(v)
             outs = []
-            for cfg in CP.CFGS:
+            ks = range(len(CP.CFGS)) if only is None else [only]
+            for k in ks:
                 with warnings.catch_warnings():
                     warnings.simplefilter('ignore')
-                    outs.append(pformat(v, **cfg))
+                    outs.append(pformat(v, **CP.CFGS[k]))
                 prints += 1
             after = snap(v)
             msg = None
             if before != after:
                 msg = 'printing modified the value (snapshot before/after differs)'
-            elif i in ref and outs != ref[i]:
-                k = next(j for j in range(len(outs)) if outs[j] != ref[i][j])
-                msg = 'output after this history differs from the first print in a fresh interpreter (cfg %r):\n%s\n--- fresh ---\n%s' % (
-                    CP.CFGS[k], outs[k][:300], ref[i][k][:300])
-            elif i in seen_out and seen_out[i] != outs:
-                msg = 'the same call gave different text at two points of the history'
-            seen_out.setdefault(i, outs)
+            else:
+                for k, out in zip(ks, outs):
+                    if i in ref and out != ref[i][k]:
+                        msg = 'output after this history differs from the first print in a fresh interpreter (cfg %r):\n%s\n--- fresh ---\n%s' % (
+                            CP.CFGS[k], out[:300], ref[i][k][:300])
+                        break
+                    if (i, k) in seen_out and seen_out[(i, k)] != out:
+                        msg = 'the same call gave different text at two points of the history (cfg %r):\n%s\n--- earlier ---\n%s' % (
+                            CP.CFGS[k], out[:300], seen_out[(i, k)][:300])
+                        break
+                    seen_out.setdefault((i, k), out)
             if msg:
                 viol += 1
                 if viol <= 3:
                     run.violation({'kind': 'oracle', 'detail': msg, 'corpus_index': i,
-                                   'entry': repr(corpus[i])[:300], 'history_prefix': history[:history.index(i) + 1][-30:]})
+                                   'entry': repr(corpus[i])[:300], 'history_prefix': [list(x) for x in steps[:steps.index((i, only)) + 1][-30:]]})
         run.count(prints)
         # a print that FAILS (the value's repr raises, so the fallback raises too) is part of the history as
         # well: afterwards the objects it was printing - and everything else - print as before
@@ -137,7 +145,7 @@ def main(tier):
             elif again != first:
                 msg = 'after a print of it FAILED, the same value prints differently:\n%s\n--- before ---\n%s' % (
                     again[0][:300], first[0][:300])
-            elif i in seen_out and outs != seen_out[i]:
+            elif all((i, k) in seen_out for k in range(len(CP.CFGS))) and outs != [seen_out[(i, k)] for k in range(len(CP.CFGS))]:
                 msg = 'after a print of a container holding it failed, the value prints differently:\n%s' % outs[0][:300]
             if msg:
                 viol += 1
